@@ -12,6 +12,7 @@ import (
 	"fmt"
 	"sort"
 	"strings"
+	"sync"
 	"time"
 
 	erpc "github.com/henrylee2cn/erpc/v6"
@@ -26,11 +27,35 @@ type rsess struct {
 	addr string          // local address when last seen settled
 }
 
+// redialCount counts the successful redials of each session (PostDial with isRedial): "the
+// session has moved to a new connection" must not be read off the local port, which the OS may
+// hand out again at once.
+type redialCount struct {
+	mu sync.Mutex
+	n  map[interface{}]int
+}
+
+func (c *redialCount) Name() string { return "c07redial" }
+func (c *redialCount) PostDial(s erpc.PreSession, isRedial bool) *erpc.Status {
+	if isRedial {
+		c.mu.Lock()
+		c.n[interface{}(s.(erpc.Session))]++
+		c.mu.Unlock()
+	}
+	return nil
+}
+func (c *redialCount) of(s erpc.Session) int {
+	c.mu.Lock()
+	defer c.mu.Unlock()
+	return c.n[interface{}(s)]
+}
+
 type rworld struct {
 	srv, cli erpc.Peer
 	lis      *Listener
 	down     bool
 	ss       []*rsess
+	rc       *redialCount
 }
 
 func rstatus(s erpc.Session) string { return erpc.VerifStatusName(erpc.VerifSessionStatus(s)) }
@@ -45,7 +70,7 @@ func rterminal(s erpc.Session) bool {
 
 // settled: every session is either finished or healthy on a connection that answers; after a
 // cut a healthy session must have moved to a new connection first.
-func (w *rworld) settle(cutAddrs map[*rsess]string) bool {
+func (w *rworld) settle(cutAddrs map[*rsess]int) bool {
 	ok := WaitUntil(redialWatchdog, func() bool {
 		for _, r := range w.ss {
 			if rterminal(r.s) {
@@ -54,7 +79,7 @@ func (w *rworld) settle(cutAddrs map[*rsess]string) bool {
 			if rstatus(r.s) != "ok" {
 				return false
 			}
-			if old, was := cutAddrs[r]; was && r.s.LocalAddr().String() == old {
+			if old, was := cutAddrs[r]; was && w.rc.of(r.s) == old {
 				return false
 			}
 			var res string
@@ -117,9 +142,9 @@ func (w *rworld) checkIndex(st *Stats, idx int, after, human string) {
 
 func runRedialCase(st *Stats, idx int, script []string) {
 	human := strings.Join(script, " ")
-	w := &rworld{}
+	w := &rworld{rc: &redialCount{n: map[interface{}]int{}}}
 	w.srv = erpc.NewPeer(erpc.PeerConfig{})
-	w.cli = erpc.NewPeer(erpc.PeerConfig{RedialTimes: 3, RedialInterval: 10 * time.Millisecond})
+	w.cli = erpc.NewPeer(erpc.PeerConfig{RedialTimes: 3, RedialInterval: 10 * time.Millisecond}, w.rc)
 	w.srv.RouteCall(new(T))
 	var err error
 	w.lis, err = Listen(w.srv, "")
@@ -143,7 +168,7 @@ func runRedialCase(st *Stats, idx int, script []string) {
 		if len(w.ss) > 0 {
 			pick = w.ss[k%len(w.ss)]
 		}
-		cutAddrs := map[*rsess]string{}
+		cutAddrs := map[*rsess]int{}
 		switch f[0] {
 		case "dial":
 			if w.down {
@@ -162,7 +187,7 @@ func runRedialCase(st *Stats, idx int, script []string) {
 			}
 			for _, r := range w.ss {
 				if rstatus(r.s) == "ok" {
-					cutAddrs[r] = r.s.LocalAddr().String()
+					cutAddrs[r] = w.rc.of(r.s)
 				}
 			}
 			w.lis.KillConns()
@@ -176,7 +201,7 @@ func runRedialCase(st *Stats, idx int, script []string) {
 					}
 					return true
 				})
-				cutAddrs = map[*rsess]string{}
+				cutAddrs = map[*rsess]int{}
 			}
 		case "setid":
 			if pick != nil && rstatus(pick.s) == "ok" {
